@@ -10,23 +10,23 @@ Ltac simpl_st :=
 
 (* the wrapper a thread is constructing *)
 Definition hu (p : pc) : option nat :=
-  match p with PMal1 h _ _ | PMal2 h _ _ _ | PSl1 h _ => Some h | _ => None end.
+  match p with PMal1 h _ _ _ | PMal2 h _ _ _ _ | PSl1 h _ => Some h | _ => None end.
 
 Lemma local_hm s i p m : local s i p -> hm p = Some m -> malive s m = true /\ mring s m = [].
 Proof.
-  destruct p as [|h b sz|h b m' sz|sz|sz v| |h m'|m' [[|]|]|m'|m' b [[|]|]|m' b|m' b v|m' b|m'];
+  destruct p as [|h b sz d|h b m' sz d|sz d|sz v d|d|d|h m'|m' [[|]|]|m'|m' b [[|]|]|m' b|m' b v|m' b|m'];
     cbn; intros H E; inversion E; subst; unfold mheld in H; tauto.
 Qed.
 
 Lemma local_hb s i p b : local s i p -> hb p = Some b -> balive s b = true /\ bring s b = [].
 Proof.
-  destruct p as [|h b' sz|h b' m' sz|sz|sz v| |h m'|m' [[|]|]|m'|m' b' [[|]|]|m' b'|m' b' v|m' b'|m'];
+  destruct p as [|h b' sz d|h b' m' sz d|sz d|sz v d|d|d|h m'|m' [[|]|]|m'|m' b' [[|]|]|m' b'|m' b' v|m' b'|m'];
     cbn; intros H E; inversion E; subst; unfold bheld in H; tauto.
 Qed.
 
 Lemma local_hu s i p h : local s i p -> hu p = Some h -> building s i h.
 Proof.
-  destruct p as [|h' b sz|h' b m' sz|sz|sz v| |h' m'|m' [[|]|]|m'|m' b [[|]|]|m' b|m' b v|m' b|m'];
+  destruct p as [|h' b sz d|h' b m' sz d|sz d|sz v d|d|d|h' m'|m' [[|]|]|m'|m' b [[|]|]|m' b|m' b v|m' b|m'];
     cbn; intros H E; inversion E; subst; tauto.
 Qed.
 
@@ -44,7 +44,7 @@ Proof.
   { intros b d E (A & B & D). destruct (Hb b E) as (E1 & E2 & E3). unfold bheld. rewrite E1, E2, E3. now repeat split. }
   assert (Eh : forall h, hu p = Some h -> building s i h -> building s' i h).
   { intros h E (A & v & B). destruct (Hh h E) as (E1 & Hv). unfold building. rewrite E1. split; [assumption|]. exists v. now apply Hv. }
-  destruct p as [|h b sz|h b m' sz|sz|sz v| |h m'|m' [[|]|]|m'|m' b [[|]|]|m' b|m' b v|m' b|m'];
+  destruct p as [|h b sz d|h b m' sz d|sz d|sz v d|d|d|h m'|m' [[|]|]|m'|m' b [[|]|]|m' b|m' b v|m' b|m'];
     cbn in *; intros H; try exact H; try tauto;
     repeat match goal with
            | H : _ /\ _ |- _ => destruct H
@@ -55,7 +55,7 @@ Qed.
 Lemma pend_stable s s' p :
   (forall b, hb p = Some b -> bsize s' b = bsize s b) -> pend s' p = pend s p.
 Proof.
-  destruct p as [|h b sz|h b m' sz|sz|sz v| |h m'|m' r|m'|m' b r|m' b|m' b v|m' b|m']; cbn; intros H; try reflexivity.
+  destruct p as [|h b sz d|h b m' sz d|sz d|sz v d|d|d|h m'|m' r|m'|m' b r|m' b|m' b v|m' b|m']; cbn; intros H; try reflexivity.
   now rewrite H.
 Qed.
 
